@@ -214,6 +214,39 @@ def Sol.wf (s : Sol) : Bool :=
     && (render s).all (fun l => rstrip l == l)
     && s.comments.all (fun c => strip c == c)
 
+
+/-! ## well-formedness of a SINEX *text* (the "well-formed output" clause of C18) -/
+
+/-- name of the block opened by a `+NAME …` line: the characters up to the first blank -/
+def blockName (r : Str) : Str := r.takeWhile (fun c => c != ' ')
+
+/-- every `+NAME` line is followed (after lines that are neither `+…` nor `-…`) by the line
+`-NAME`; `o` is the block currently open -/
+def blocksClosedAux : Option Str → List Str → Bool
+  | o, [] => o.isNone
+  | o, l :: ls =>
+    match l with
+    | '+' :: r => o.isNone && blocksClosedAux (some (blockName r)) ls
+    | '-' :: r => (o == some r) && blocksClosedAux none ls
+    | _ => blocksClosedAux o ls
+
+/-- `YY:DDD:SSSSS` with decimal digits and seconds `00000 … 86399` -/
+def isStampText (t : Str) : Bool :=
+  t.length == 12 && (slice 0 2 t).all isDigit && slice 2 3 t == [':'] && (slice 3 6 t).all isDigit
+    && slice 6 7 t == [':'] && (slice 7 12 t).all isDigit && decide (digitsVal (slice 7 12 t) ≤ 86399)
+
+/-- a well-formed SINEX file as far as the editors are concerned: a header line of the fixed width
+(69 characters, 71 with the velocity flag) carrying a proper creation stamp and a 5-digit
+parameter count, every block closed by its terminator on a line of its own, `%ENDSNX` as the
+last line -/
+def wellFormedText (ls : List Str) : Bool :=
+  match ls with
+  | [] => false
+  | h :: body =>
+    (h.length == 69 || h.length == 71) && isStampText (slice 15 27 h)
+      && ((slice 60 65 h).length == 5 && (slice 60 65 h).all isDigit)
+      && body.getLast? == some "%ENDSNX".toList && blocksClosedAux none body.dropLast
+
 /-! ## recognising a rendered solution in a text (for the tie: generated files satisfy the
 hypotheses of the theorems) -/
 
